@@ -453,6 +453,10 @@ func checkC09(c *Ctx) {
 	c.checkSliceSibling("O6 slice-sibling", "counters", "countersSlice")
 	c.checkSliceSibling("O6 slice-sibling", "histograms", "histogramsSlice")
 	c.checkSliceSibling("O6 slice-sibling", "gauges", "gaugesSlice")
+	// "everything recorded through any returned handle is delivered": no pass skips a metric kind (a
+	// try-lock that leaves a busy kind "for the next pass" loses it at the last pass)
+	c.shared(checkC01, map[string]string{"O7 pass-coverage": "O6 pass-coverage"})
+	c.shared(checkC02, map[string]string{"O5 pass-coverage": "O6 pass-coverage"})
 	_ = token.NoPos
 }
 
